@@ -137,16 +137,18 @@ def shard_main(args):
                     from hypothesis.stateful import run_state_machine_as_test
                     per = max(1, -(-part["examples"] // nshards))
                     cls = part["machine"](stats)
+                    # once this shard has a (shrunk) violation, later parts only generate: their failures are still
+                    # reported, but minutes of shrinking on a tree already known to be broken are not spent
                     st_ = settings(max_examples=per, database=None, deadline=None, derandomize=False,
                                    report_multiple_bugs=False, suppress_health_check=list(HealthCheck),
-                                   phases=[Phase.generate, Phase.shrink], print_blob=False,
+                                   phases=[Phase.generate] if out["violations"] else [Phase.generate, Phase.shrink], print_blob=False,
                                    stateful_step_count=part.get("steps", 30))
                     run_state_machine_as_test(hypothesis.seed(seed * 64 + shard)(cls), settings=st_)
                 else:
                     n = part["examples"]
                     per = max(1, -(-n // nshards))
                     test = part["make"](stats)
-                    phases = [Phase.generate, Phase.shrink]
+                    phases = [Phase.generate] if out["violations"] else [Phase.generate, Phase.shrink]
                     test = settings(max_examples=per, database=None, deadline=None, derandomize=False,
                                     report_multiple_bugs=False, suppress_health_check=list(HealthCheck),
                                     phases=phases, print_blob=False,
